@@ -18,6 +18,9 @@
 (*     late  sequence of res/rej steps run as script 2                     *)
 (*   task kind "A": async function  [kind, steps, ret]                     *)
 (*        step [op |-> "aw", x]        r = await X; print(label, r)        *)
+(*             [op |-> "awc", x]       the same inside try / catch (the    *)
+(*                                     handler prints and execution goes   *)
+(*                                     on with the next step)              *)
 (*             [op |-> "res", s, x]    resolveS(X)                         *)
 (*             [op |-> "rej", s]       rejectS(n)                          *)
 (*        ret  operand, or [o |-> "throw"]                                 *)
@@ -26,6 +29,22 @@
 (*        T = Promise.resolve(BASE) ; T = T.then(F,R) | .catch(R) |        *)
 (*        .finally(FIN) ... ; handlers print (label, argument) and then    *)
 (*        return an operand or throw; [o |-> "none"] = handler missing     *)
+(*             [op |-> "gq", g, s]     fire a request at async generator s *)
+(*                                     (g = "next" | "return" | "throw")   *)
+(*                                     and observe its promise             *)
+(*             [op |-> "awq", g, s]    r = await G.next(n) ...; print      *)
+(*   task kind "G": async generator [kind, steps, ret]                     *)
+(*        async function* g(){ ... } ; G = g()   (body starts at the first *)
+(*        next()); steps as in "A" plus [op |-> "yi", x]  r = yield X;     *)
+(*        print(label, r), and [op |-> "ys", s]  r = yield* G_s (another   *)
+(*        async generator object of the scenario); print(label, r).        *)
+(*        AsyncGeneratorStart / Enqueue / Resume /                         *)
+(*        Yield / UnwrapYieldResumption / CompleteStep / AwaitReturn /     *)
+(*        DrainQueue of 27.6.3 are library code of the model.              *)
+(*   task kind "M": combinator      [kind, comb, xs]                       *)
+(*        T = Promise.all | allSettled | race | any ([X1, ..., Xn]) with   *)
+(*        the algorithms of 27.2.4.1-3, 27.2.4.5 as library code; the      *)
+(*        caller attaches an observer that prints the elements             *)
 (*   operand [o, s]:                                                       *)
 (*     "u" undefined, "v" number, "F"/"R" fresh fulfilled/rejected native  *)
 (*     promise, "S" shared promise s, "T" promise of earlier task s,       *)
@@ -41,7 +60,12 @@
 (***************************************************************************)
 EXTENDS Naturals, Sequences, FiniteSets, TLC
 
-CONSTANT Scenarios   \* the scenario universe (MC modules may instead define their own Init with InitWith)
+CONSTANTS Scenarios, \* the scenario universe (MC modules may instead define their own Init with InitWith)
+          Quirks     \* {} = ECMA-262 as published.  Named deviations, used only to CLASSIFY a disagreement
+                     \* that was already found against the unmodified model (known findings):
+                     \*   "ysReturnAwait": in `yield* inner` of an async generator, when the result of
+                     \*   inner.return(v) is done, the value is awaited before the generator returns (the
+                     \*   text of 15.5.5 before the await was removed from that step; one extra job)
 
 VARIABLES scn,       \* the scenario being executed (constant along a behaviour)
           promises,  \* Seq of [state, result, fr, rr, handled, pthen, pctor]
@@ -55,9 +79,11 @@ VARIABLES scn,       \* the scenario being executed (constant along a behaviour)
           act,       \* number of the current synchronous activity (script or job)
           nextJob,   \* id given to the next enqueued job
           ran,       \* number of jobs that have run
-          settles    \* settles[p] = how many times promise p was settled (history variable)
+          settles,   \* settles[p] = how many times promise p was settled (history variable)
+          combs,     \* Seq of combinator records [kind, cap, vals, remaining, called]
+          gens       \* gens[i] = [st, q] of the async generator object of task i (q = request queue)
 
-vars == <<scn, promises, caps, queue, tasks, tp, out, ctl, phase, act, nextJob, ran, settles>>
+vars == <<scn, promises, caps, queue, tasks, tp, out, ctl, phase, act, nextJob, ran, settles, combs, gens>>
 
 -----------------------------------------------------------------------------
 \* Values
@@ -67,8 +93,23 @@ N(n)     == [t |-> "n", n |-> n]
 P(i)     == [t |-> "p", id |-> i]
 ErrV(c)  == [t |-> "err", c |-> c]
 Th(k, l, n) == [t |-> "th", kind |-> k, l |-> l, n |-> n]
+Str(x)   == [t |-> "s", s |-> x]
+Arr(xs)  == [t |-> "arr", xs |-> xs]                     \* an Array (no `then` anywhere on its prototype chain)
+Ent(st, v) == [t |-> "ent", status |-> st, v |-> v]     \* { status, value | reason } of Promise.allSettled
 
-IsObject(v)   == v.t \in {"p", "th", "err", "f"}
+Bool(b)  == [t |-> "b", b |-> b]
+Iter(v, d) == [t |-> "iter", v |-> v, done |-> d]       \* CreateIterResultObject(v, d)
+
+IsObject(v)   == v.t \in {"p", "th", "err", "f", "arr", "ent", "iter"}
+
+\* the scripts print through a helper that spreads arrays, { status, value | reason } records and
+\* iterator results into their components
+FlatOne(x) == CASE x.t = "ent"  -> <<Str(x.status), x.v>>
+                [] x.t = "iter" -> <<x.v, Bool(x.done)>>
+                [] OTHER        -> <<x>>
+RECURSIVE FlatSeq(_, _)
+FlatSeq(xs, k) == IF k > Len(xs) THEN <<>> ELSE FlatOne(xs[k]) \o FlatSeq(xs, k + 1)
+Flat(v) == IF v.t = "arr" THEN FlatSeq(v.xs, 1) ELSE FlatOne(v)
 IsCallable(v) == v.t = "f"
 
 Normal(v) == [k |-> "normal", v |-> v]
@@ -95,13 +136,14 @@ Arg(args, k) == IF k <= Len(args) THEN args[k] ELSE U
 Let(e, Body(_)) == CHOOSE r \in {Body(v) : v \in {e}} : TRUE
 
 Heap == [pr |-> promises, cp |-> caps, q |-> queue, o |-> out, nj |-> nextJob, act |-> act,
-         st |-> settles, tp |-> tp]
+         st |-> settles, tp |-> tp, cb |-> combs, gn |-> gens]
 
 SetHeap(h) == /\ promises' = h.pr /\ caps' = h.cp /\ queue' = h.q /\ out' = h.o
-              /\ nextJob' = h.nj /\ settles' = h.st /\ tp' = h.tp
+              /\ nextJob' = h.nj /\ settles' = h.st /\ tp' = h.tp /\ combs' = h.cb /\ gens' = h.gn
 
-PrintArg(h, l, v) == [h EXCEPT !.o = Append(@, [e |-> "print", l |-> l, v |-> v])]
-PrintNoArg(h, l) == [h EXCEPT !.o = Append(@, [e |-> "print", l |-> l])]
+PrintVals(h, l, vs) == [h EXCEPT !.o = Append(@, [e |-> "print", l |-> l, vs |-> vs])]
+PrintArg(h, l, v) == PrintVals(h, l, Flat(v))
+PrintNoArg(h, l) == PrintVals(h, l, <<>>)
 Track(h, op) == [h EXCEPT !.o = Append(@, [e |-> "trk", op |-> op])]
 
 NewPromiseRec == [state |-> "pending", result |-> U, fr |-> <<>>, rr |-> <<>>, handled |-> FALSE,
@@ -167,6 +209,10 @@ FnThenFinally(fin)  == [t |-> "f", f |-> "thenFinally", fin |-> fin]
 FnCatchFinally(fin) == [t |-> "f", f |-> "catchFinally", fin |-> fin]
 FnValueThunk(v)  == [t |-> "f", f |-> "valueThunk", v |-> v]
 FnThrower(v)     == [t |-> "f", f |-> "thrower", v |-> v]
+FnGenRetF(i)     == [t |-> "f", f |-> "genRetF", task |-> i]    \* closures of AsyncGeneratorAwaitReturn
+FnGenRetR(i)     == [t |-> "f", f |-> "genRetR", task |-> i]
+FnElemF(c, k)    == [t |-> "f", f |-> "elemF", c |-> c, idx |-> k]    \* Promise.all / allSettled resolve element
+FnElemR(c, k)    == [t |-> "f", f |-> "elemR", c |-> c, idx |-> k]    \* allSettled / any reject element
 
 -----------------------------------------------------------------------------
 \* Get(resolution, "then") for the objects of the scenario language -> [h, c]
@@ -247,6 +293,55 @@ EvalOp(h, opnd, i, j, x) ==
             Let(ResolveFn(c.h, c.rf, N(n)), LAMBDA h1 :
                 [h |-> [h1 EXCEPT !.pr[c.p].pctor = TRUE], v |-> P(c.p)]))
 
+-----------------------------------------------------------------------------
+\* Async generator objects (27.6.3).  gn[i] = [st, q]; st is "start" (suspended-start), "yield"
+\* (suspended-yield), "executing", "draining" (draining-queue) or "completed"; a request is
+\* [k (completion type), v, rf (resolving functions of its promise capability)].
+
+Ret(v) == [k |-> "return", v |-> v]
+
+\* AsyncGeneratorCompleteStep(generator, completion, done)
+GenCompleteStep(h, i, c, done) ==
+  Let(Head(h.gn[i].q), LAMBDA next :
+  Let([h EXCEPT !.gn[i].q = Tail(@)], LAMBDA h1 :
+      IF c.k = "throw" THEN RejectFn(h1, next.rf, c.v) ELSE ResolveFn(h1, next.rf, Iter(c.v, done))))
+
+\* AsyncGeneratorAwaitReturn(generator)
+GenAwaitReturn(h, i) ==
+  Let(PromiseResolveOp(h, Head(h.gn[i].q).v), LAMBDA pr :
+      PerformThen(pr.h, pr.v.id, FnGenRetF(i), FnGenRetR(i), 0))
+
+\* AsyncGeneratorDrainQueue(generator)
+RECURSIVE GenDrainQueue(_, _)
+GenDrainQueue(h, i) ==
+  IF h.gn[i].q = <<>> THEN [h EXCEPT !.gn[i].st = "completed"]
+  ELSE Let(Head(h.gn[i].q), LAMBDA next :
+         IF next.k = "return" THEN GenAwaitReturn(h, i)
+         ELSE Let(GenCompleteStep(h, i, IF next.k = "normal" THEN Normal(U) ELSE Throw(next.v), TRUE), LAMBDA h1 :
+                  GenDrainQueue(h1, i)))
+
+\* %AsyncGeneratorPrototype%.next / return / throw (v) -> [h, p (the returned promise), resume (a
+\* completion, or "none": whether AsyncGeneratorResume has to run the body now)]
+GenRequest(h, i, g, v) ==
+  Let(NewCapability(h), LAMBDA cap :
+  LET st == h.gn[i].st
+      enq(c) == [cap.h EXCEPT !.gn[i].q = Append(@, [k |-> c.k, v |-> c.v, rf |-> cap.rf])]
+      NoRes == [k |-> "none"]
+  IN CASE g = "next" ->
+            IF st = "completed"
+            THEN [h |-> ResolveFn(cap.h, cap.rf, Iter(U, TRUE)), p |-> cap.p, resume |-> NoRes]
+            ELSE [h |-> enq(Normal(v)), p |-> cap.p, resume |-> IF st \in {"start", "yield"} THEN Normal(v) ELSE NoRes]
+       [] g = "return" ->
+            IF st \in {"start", "completed"}
+            THEN Let([enq(Ret(v)) EXCEPT !.gn[i].st = "draining"], LAMBDA h1 :
+                     [h |-> GenAwaitReturn(h1, i), p |-> cap.p, resume |-> NoRes])
+            ELSE [h |-> enq(Ret(v)), p |-> cap.p, resume |-> IF st = "yield" THEN Ret(v) ELSE NoRes]
+       [] g = "throw" ->
+            IF st \in {"start", "completed"}
+            THEN Let([cap.h EXCEPT !.gn[i].st = "completed"], LAMBDA h1 :
+                     [h |-> RejectFn(h1, cap.rf, v), p |-> cap.p, resume |-> NoRes])
+            ELSE [h |-> enq(Throw(v)), p |-> cap.p, resume |-> IF st = "yield" THEN Throw(v) ELSE NoRes])
+
 \* Call of a scenario-language handler -> [h, c]
 CallUser(h, f, args) ==
   Let(IF f.noarg THEN PrintNoArg(h, f.l) ELSE PrintArg(h, f.l, Arg(args, 1)), LAMBDA h1 :
@@ -282,6 +377,24 @@ CallFn(h, f, thisV, args) ==
                    Let(NewCapability(h1), LAMBDA c0 :
                    Let(ResolveFn(c0.h, c0.rf, U), LAMBDA h2 :
                        [h |-> PromiseThen(h2, c0.p, FnCallRes(res, f.n), U).h, c |-> Normal(U)]))))
+    [] f.f = "genRetF" ->
+         Let(GenCompleteStep(h, f.task, Normal(Arg(args, 1)), TRUE), LAMBDA h1 :
+             [h |-> GenDrainQueue(h1, f.task), c |-> Normal(U)])
+    [] f.f = "genRetR" ->
+         Let(GenCompleteStep(h, f.task, Throw(Arg(args, 1)), TRUE), LAMBDA h1 :
+             [h |-> GenDrainQueue(h1, f.task), c |-> Normal(U)])
+    [] f.f \in {"elemF", "elemR"} ->
+         \* 27.2.4.1.3 Promise.all resolve element, 27.2.4.2.2-3 allSettled elements, 27.2.4.3.2 any reject element
+         IF h.cb[f.c].called[f.idx] THEN [h |-> h, c |-> Normal(U)]
+         ELSE LET kind == h.cb[f.c].kind
+                  x == Arg(args, 1)
+                  val == IF kind = "allSettled" THEN Ent(IF f.f = "elemF" THEN "fulfilled" ELSE "rejected", x) ELSE x
+              IN Let([h EXCEPT !.cb[f.c].called[f.idx] = TRUE, !.cb[f.c].vals[f.idx] = val,
+                               !.cb[f.c].remaining = @ - 1], LAMBDA h1 :
+                     IF h1.cb[f.c].remaining # 0 THEN [h |-> h1, c |-> Normal(U)]
+                     ELSE IF kind = "any"
+                          THEN [h |-> RejectFn(h1, h1.cb[f.c].cap, ErrV("AggregateError")), c |-> Normal(U)]
+                          ELSE [h |-> ResolveFn(h1, h1.cb[f.c].cap, Arr(h1.cb[f.c].vals)), c |-> Normal(U)])
     [] f.f \in {"thenFinally", "catchFinally"} ->
          \* 27.2.5.3.1 / 27.2.5.3.2 with C = %Promise%
          Let(CallUser(h, f.fin, <<>>), LAMBDA r :
@@ -292,14 +405,53 @@ CallFn(h, f, thisV, args) ==
                                  U)))
 
 -----------------------------------------------------------------------------
+\* Promise.all / allSettled / race / any ( [x1 .. xn] ) with C = %Promise% (27.2.4.1, .2, .3, .5)
+
+\* the array literal evaluates its elements first
+RECURSIVE EvalOps(_, _, _, _, _)
+EvalOps(h, xs, i, k, acc) ==
+  IF k > Len(xs) THEN [h |-> h, vs |-> acc]
+  ELSE Let(EvalOp(h, xs[k], i, k, 0), LAMBDA e : EvalOps(e.h, xs, i, k + 1, Append(acc, e.v)))
+
+\* the loop of PerformPromiseAll / AllSettled / Race / Any
+RECURSIVE CombLoop(_, _, _, _, _, _)
+CombLoop(h, kind, c, crf, vs, k) ==
+  IF k > Len(vs) THEN h
+  ELSE \* nextPromise = Call(promiseResolve, C, << next >>)
+       Let(PromiseResolveOp(h, vs[k]), LAMBDA pr :
+       Let(IF kind = "race" THEN pr.h ELSE [pr.h EXCEPT !.cb[c].remaining = @ + 1], LAMBDA h1 :
+       \* Invoke(nextPromise, "then", << onFulfilled, onRejected >>)
+       Let(InvokeThen(h1, pr.v,
+                      IF kind \in {"all", "allSettled"} THEN FnElemF(c, k) ELSE FnResolve(crf),
+                      IF kind \in {"allSettled", "any"} THEN FnElemR(c, k) ELSE FnReject(crf)), LAMBDA r :
+           CombLoop(r.h, kind, c, crf, vs, k + 1))))
+
+\* -> [h, p]
+Combinator(h, kind, xs, i) ==
+  Let(NewCapability(h), LAMBDA cap :
+  Let(EvalOps(cap.h, xs, i, 1, <<>>), LAMBDA e :
+  Let([e.h EXCEPT !.cb = Append(@, [kind |-> kind, cap |-> cap.rf, vals |-> [k \in 1..Len(xs) |-> U],
+                                    remaining |-> 1, called |-> [k \in 1..Len(xs) |-> FALSE]])], LAMBDA h1 :
+  Let(Len(h1.cb), LAMBDA c :
+  Let(CombLoop(h1, kind, c, cap.rf, e.vs, 1), LAMBDA h2 :
+      IF kind = "race" THEN [h |-> h2, p |-> cap.p]
+      ELSE Let([h2 EXCEPT !.cb[c].remaining = @ - 1], LAMBDA h3 :
+               IF h3.cb[c].remaining # 0 THEN [h |-> h3, p |-> cap.p]
+               ELSE IF kind = "any" THEN [h |-> RejectFn(h3, cap.rf, ErrV("AggregateError")), p |-> cap.p]
+               ELSE [h |-> ResolveFn(h3, cap.rf, Arr(h3.cb[c].vals)), p |-> cap.p]))))))
+
+-----------------------------------------------------------------------------
 \* Statements of the two scripts
 
 RECURSIVE StmtsFrom(_, _)
 StmtsFrom(s, i) ==
   IF i > Len(s.tasks) THEN <<>>
   ELSE LET t == s.tasks[i]
-           mine == IF t.kind = "A" THEN <<[s |-> "call", i |-> i], [s |-> "obs", i |-> i]>>
-                   ELSE <<[s |-> "base", i |-> i]>> \o [l \in 1..Len(t.links) |-> [s |-> "link", i |-> i, l |-> l]]
+           mine == CASE t.kind = "A" -> <<[s |-> "call", i |-> i], [s |-> "obs", i |-> i]>>
+                     [] t.kind = "M" -> <<[s |-> "comb", i |-> i], [s |-> "obs", i |-> i]>>
+                     [] t.kind = "G" -> <<>>     \* G = g(): creates the generator object, runs nothing
+                     [] t.kind = "C" -> <<[s |-> "base", i |-> i]>>
+                                        \o [l \in 1..Len(t.links) |-> [s |-> "link", i |-> i, l |-> l]]
        IN mine \o StmtsFrom(s, i + 1)
 
 Stmts(s, ph) == IF ph = 1 THEN StmtsFrom(s, 1) ELSE [j \in 1..Len(s.late) |-> [s |-> "late", j |-> j]]
@@ -319,7 +471,10 @@ InitWith(s) ==
   /\ caps = [k \in 1..s.ns |-> [promise |-> k, done |-> FALSE]]
   /\ settles = [k \in 1..s.ns |-> 0]
   /\ queue = <<>>
-  /\ tasks = [k \in 1..Len(s.tasks) |-> [st |-> "new", pc |-> 0, rf |-> 0, resume |-> [k |-> "none"]]]
+  /\ tasks = [k \in 1..Len(s.tasks) |-> [st |-> IF s.tasks[k].kind = "G" THEN "suspended" ELSE "new", pc |-> 0,
+                                          rf |-> 0, resume |-> [k |-> "none"], wait |-> "start", sub |-> 0, tmp |-> 0,
+                                          recv |-> [k |-> "none"], retm |-> FALSE]]
+  /\ gens = [k \in 1..Len(s.tasks) |-> [st |-> "start", q |-> <<>>]]
   /\ tp = [k \in 1..Len(s.tasks) |-> 0]
   /\ out = <<>>
   /\ ctl = <<[k |-> "main", ph |-> 1, pc |-> 1]>>
@@ -327,6 +482,7 @@ InitWith(s) ==
   /\ act = 1
   /\ nextJob = 1
   /\ ran = 0
+  /\ combs = <<>>
 
 Init == \E s \in Scenarios : InitWith(s)
 
@@ -341,7 +497,7 @@ ScriptStep ==
        THEN /\ ctl' = <<>>
             /\ phase' = IF f.ph = 1 THEN "jobs1" ELSE "jobs2"
             /\ out' = Append(out, [e |-> "phase", p |-> IF f.ph = 1 THEN "jobs1" ELSE "jobs2"])
-            /\ UNCHANGED <<scn, promises, caps, queue, tasks, tp, act, nextJob, ran, settles>>
+            /\ UNCHANGED <<scn, promises, caps, queue, tasks, tp, act, nextJob, ran, settles, combs, gens>>
        ELSE /\ UNCHANGED <<scn, phase, act, ran>>
             /\ \E st \in {ss[f.pc]} : \E adv \in {[ctl EXCEPT ![Len(ctl)].pc = @ + 1]} :
                  CASE st.s = "call" ->
@@ -350,6 +506,10 @@ ScriptStep ==
                            /\ \E h2 \in {[c.h EXCEPT !.tp[st.i] = c.p]} : SetHeap(h2)
                            /\ tasks' = [tasks EXCEPT ![st.i] = [@ EXCEPT !.st = "running", !.rf = c.rf]]
                            /\ ctl' = Append(adv, [k |-> "task", id |-> st.i])
+                   [] st.s = "comb" ->
+                        \E r \in {Combinator(H, scn.tasks[st.i].comb, scn.tasks[st.i].xs, st.i)} :
+                        \E h2 \in {[r.h EXCEPT !.tp[st.i] = r.p]} :
+                           SetHeap(h2) /\ ctl' = adv /\ UNCHANGED tasks
                    [] st.s = "obs" ->
                         \E r \in {InvokeThen(H, P(tp[st.i]),
                                              FnUser(Lab("ok", st.i, 0), [o |-> "u", s |-> 0], st.i, 0, 8, FALSE),
@@ -375,45 +535,189 @@ ScriptStep ==
                         \E h2 \in {SettleStep(H, scn.late[st.j], LateIdx, st.j)} :
                            SetHeap(h2) /\ ctl' = adv /\ UNCHANGED tasks
 
-\* one step of the running async function body
+\* Await(v) performed by the body of task i: PromiseResolve, PerformPromiseThen, suspend
+AwaitIn(h, i, v) ==
+  Let(PromiseResolveOp(h, v), LAMBDA r : PerformThen(r.h, r.v.id, FnAwaitF(i), FnAwaitR(i), 0))
+
+Suspend(i, w) == tasks' = [tasks EXCEPT ![i] = [@ EXCEPT !.st = "suspended", !.wait = w, !.resume = [k |-> "none"]]]
+Goto(i, pc2)  == tasks' = [tasks EXCEPT ![i] = [@ EXCEPT !.pc = pc2, !.resume = [k |-> "none"], !.wait = "none", !.sub = 0,
+                                                       !.recv = [k |-> "none"], !.retm = FALSE]]
+
+\* one step of the running async function body (task kind "A")
+ATaskStep(i, t, body, H) ==
+  LET finish(h) == /\ SetHeap(h) /\ ctl' = Pop
+                   /\ tasks' = [tasks EXCEPT ![i] = [@ EXCEPT !.st = "done", !.resume = [k |-> "none"]]]
+  IN CASE t.resume.k = "throw" /\ body.steps[t.pc].op = "awc" ->
+            \* Await resumed with a throw completion inside try / catch: the handler prints
+            /\ \E h2 \in {PrintArg(H, Lab("ca", i, t.pc), t.resume.v)} : SetHeap(h2)
+            /\ ctl' = ctl /\ Goto(i, t.pc + 1)
+       [] t.resume.k = "throw" /\ body.steps[t.pc].op # "awc" ->
+            \* Await resumed with a throw completion; no try/catch around it: AsyncBlockStart
+            \* step 3.g: Call(promiseCapability.[[Reject]], undefined, << result.[[Value]] >>)
+            \E h2 \in {RejectFn(H, t.rf, t.resume.v)} : finish(h2)
+       [] t.resume.k = "normal" ->
+            /\ \E h2 \in {PrintArg(H, Lab("aw", i, t.pc), t.resume.v)} : SetHeap(h2)
+            /\ ctl' = ctl /\ Goto(i, t.pc + 1)
+       [] t.resume.k = "none" /\ t.pc = 0 ->
+            /\ \E h2 \in {PrintNoArg(H, Lab("go", i, 0))} : SetHeap(h2)
+            /\ ctl' = ctl /\ Goto(i, 1)
+       [] t.resume.k = "none" /\ t.pc > 0 /\ t.pc <= Len(body.steps) ->
+            \E step \in {body.steps[t.pc]} :
+              (CASE step.op \in {"aw", "awc"} ->
+                      \* Await(v): promise = PromiseResolve(%Promise%, v); PerformPromiseThen(promise,
+                      \* onFulfilled, onRejected); suspend
+                      \E e \in {EvalOp(H, step.x, i, t.pc, 0)} :
+                      \E h2 \in {AwaitIn(e.h, i, e.v)} :
+                         SetHeap(h2) /\ Suspend(i, "await") /\ ctl' = Pop
+                 [] step.op \in {"res", "rej"} ->
+                      /\ \E h2 \in {SettleStep(H, step, i, t.pc)} : SetHeap(h2)
+                      /\ Goto(i, t.pc + 1) /\ ctl' = ctl
+                 [] step.op \in {"gq", "awq"} /\ t.sub = 0 ->
+                      \* G.next(n) / G.return(n) / G.throw(n): the request, and (AsyncGeneratorResume) the
+                      \* generator body runs on top of this activation until it suspends
+                      \E r \in {GenRequest(H, step.s, step.g, N(SiteN(i, t.pc, 1)))} :
+                         IF r.resume.k = "none"
+                         THEN /\ SetHeap(r.h) /\ ctl' = ctl
+                              /\ tasks' = [tasks EXCEPT ![i] = [@ EXCEPT !.sub = 1, !.tmp = r.p]]
+                         ELSE /\ \E h2 \in {[r.h EXCEPT !.gn[step.s].st = "executing"]} : SetHeap(h2)
+                              /\ ctl' = Append(ctl, [k |-> "task", id |-> step.s])
+                              /\ Assert(tasks[step.s].st = "suspended", "resumed a generator that is not suspended")
+                              /\ tasks' = [tasks EXCEPT ![i] = [@ EXCEPT !.sub = 1, !.tmp = r.p],
+                                                        ![step.s] = [@ EXCEPT !.st = "running", !.resume = r.resume]]
+                 [] step.op = "gq" /\ t.sub = 1 ->
+                      \E r \in {InvokeThen(H, P(t.tmp),
+                                           FnUser(Lab("gq", i, t.pc), [o |-> "u", s |-> 0], i, t.pc, 8, FALSE),
+                                           FnUser(Lab("ge", i, t.pc), [o |-> "u", s |-> 0], i, t.pc, 9, FALSE))} :
+                         SetHeap(r.h) /\ Goto(i, t.pc + 1) /\ ctl' = ctl
+                 [] step.op = "awq" /\ t.sub = 1 ->
+                      \E h2 \in {AwaitIn(H, i, P(t.tmp))} :
+                         /\ SetHeap(h2) /\ ctl' = Pop
+                         /\ tasks' = [tasks EXCEPT ![i] = [@ EXCEPT !.st = "suspended", !.wait = "await", !.sub = 0]])
+       [] t.resume.k = "none" /\ t.pc > Len(body.steps) ->
+            \* AsyncBlockStart 3.e-g: resolve / reject the function's capability
+            IF body.ret.o = "throw"
+            THEN \E h2 \in {RejectFn(H, t.rf, N(SiteN(i, 9, 0)))} : finish(h2)
+            ELSE \E e \in {EvalOp(H, body.ret, i, 9, 0)} :
+                 \E h2 \in {ResolveFn(e.h, t.rf, e.v)} : finish(h2)
+
+\* one step of the running async generator body (task kind "G"); t.wait says where the body is:
+\*   "start" not started, "none" running, "await" at an await step, "yieldAwait" at the Await of
+\*   `yield X`, "yielded" at AsyncGeneratorYield, "retAwait" at the Await of `return X`,
+\*   "resumeRetAwait" at the Await of AsyncGeneratorUnwrapYieldResumption for a return completion;
+\*   inside `yield* G_s` (15.5.5): t.recv = the `received` completion to forward to the inner generator
+\*   (t.sub = 0: call its next / throw / return now, t.sub = 1: the call returned, Await its promise),
+\*   "ysAwait" at that Await, "ysYielded" at AsyncGeneratorYield(IteratorValue(innerResult)),
+\*   "ysRetAwait" at the Await of UnwrapYieldResumption; t.retm = the forwarded completion was a return
+GTaskStep(i, t, body, H) ==
+  LET \* AsyncGeneratorStart 4.e-k: the body completed: draining-queue, CompleteStep(done = true), DrainQueue
+      ending(h, c) == \E h1 \in {[h EXCEPT !.gn[i].st = "draining"]} :
+                      \E h2 \in {GenCompleteStep(h1, i, c, TRUE)} :
+                      \E h3 \in {GenDrainQueue(h2, i)} :
+                         /\ SetHeap(h3) /\ ctl' = Pop
+                         /\ tasks' = [tasks EXCEPT ![i] = [@ EXCEPT !.st = "done", !.resume = [k |-> "none"], !.wait = "none"]]
+      awaiting(h, v, w) == \E h2 \in {AwaitIn(h, i, v)} : SetHeap(h2) /\ Suspend(i, w) /\ ctl' = Pop
+  IN CASE t.wait = "start" ->
+            \* first next(): the body starts (the value sent by the first next is ignored)
+            /\ \E h2 \in {PrintNoArg(H, Lab("gg", i, 0))} : SetHeap(h2)
+            /\ ctl' = ctl /\ Goto(i, 1)
+       [] t.wait = "await" /\ t.resume.k = "normal" ->
+            /\ \E h2 \in {PrintArg(H, Lab("aw", i, t.pc), t.resume.v)} : SetHeap(h2)
+            /\ ctl' = ctl /\ Goto(i, t.pc + 1)
+       [] t.wait = "await" /\ t.resume.k = "throw" ->
+            IF body.steps[t.pc].op = "awc"
+            THEN /\ \E h2 \in {PrintArg(H, Lab("ca", i, t.pc), t.resume.v)} : SetHeap(h2)
+                 /\ ctl' = ctl /\ Goto(i, t.pc + 1)
+            ELSE ending(H, Throw(t.resume.v))
+       [] t.wait = "yieldAwait" /\ t.resume.k = "throw" -> ending(H, Throw(t.resume.v))
+       [] t.wait = "yieldAwait" /\ t.resume.k = "normal" ->
+            \* AsyncGeneratorYield(value): CompleteStep(done = false); if another request is queued
+            \* execution continues with it without suspending, else suspended-yield
+            \E h1 \in {GenCompleteStep(H, i, Normal(t.resume.v), FALSE)} :
+               IF h1.gn[i].q # <<>>
+               THEN /\ SetHeap(h1) /\ ctl' = ctl
+                    /\ tasks' = [tasks EXCEPT ![i] = [@ EXCEPT !.wait = "yielded",
+                                   !.resume = [k |-> Head(h1.gn[i].q).k, v |-> Head(h1.gn[i].q).v]]]
+               ELSE /\ \E h2 \in {[h1 EXCEPT !.gn[i].st = "yield"]} : SetHeap(h2)
+                    /\ Suspend(i, "yielded") /\ ctl' = Pop
+       [] t.wait = "yielded" /\ t.resume.k = "normal" ->
+            \* AsyncGeneratorUnwrapYieldResumption: the value of the yield expression
+            /\ \E h2 \in {PrintArg(H, Lab("yi", i, t.pc), t.resume.v)} : SetHeap(h2)
+            /\ ctl' = ctl /\ Goto(i, t.pc + 1)
+       [] t.wait = "yielded" /\ t.resume.k = "throw" -> ending(H, Throw(t.resume.v))
+       [] t.wait = "yielded" /\ t.resume.k = "return" -> awaiting(H, t.resume.v, "resumeRetAwait")
+       [] t.wait \in {"resumeRetAwait", "retAwait"} ->
+            ending(H, IF t.resume.k = "throw" THEN Throw(t.resume.v) ELSE Normal(t.resume.v))
+       [] t.wait = "ys" /\ t.sub = 0 ->
+            \* Call(next | throw | return, iterator, << received.[[Value]] >>): a request at the inner generator,
+            \* whose body (AsyncGeneratorResume) runs on top of this one until it suspends
+            \E j \in {body.steps[t.pc].s} :
+            \E r \in {GenRequest(H, j, CASE t.recv.k = "normal" -> "next" [] t.recv.k = "throw" -> "throw"
+                                            [] t.recv.k = "return" -> "return", t.recv.v)} :
+               IF r.resume.k = "none"
+               THEN /\ SetHeap(r.h) /\ ctl' = ctl
+                    /\ tasks' = [tasks EXCEPT ![i] = [@ EXCEPT !.sub = 1, !.tmp = r.p, !.retm = (t.recv.k = "return")]]
+               ELSE /\ \E h2 \in {[r.h EXCEPT !.gn[j].st = "executing"]} : SetHeap(h2)
+                    /\ ctl' = Append(ctl, [k |-> "task", id |-> j])
+                    /\ Assert(tasks[j].st = "suspended", "resumed a generator that is not suspended")
+                    /\ tasks' = [tasks EXCEPT ![i] = [@ EXCEPT !.sub = 1, !.tmp = r.p, !.retm = (t.recv.k = "return")],
+                                              ![j] = [@ EXCEPT !.st = "running", !.resume = r.resume]]
+       [] t.wait = "ys" /\ t.sub = 1 ->
+            \* innerResult = ? Await(innerResult)
+            \E h2 \in {AwaitIn(H, i, P(t.tmp))} :
+               /\ SetHeap(h2) /\ ctl' = Pop
+               /\ tasks' = [tasks EXCEPT ![i] = [@ EXCEPT !.st = "suspended", !.wait = "ysAwait", !.sub = 0]]
+       [] t.wait = "ysAwait" /\ t.resume.k = "throw" -> ending(H, Throw(t.resume.v))
+       [] t.wait = "ysAwait" /\ t.resume.k = "normal" ->
+            \E res \in {t.resume.v} :     \* an iterator result object
+               IF res.done
+               THEN IF t.retm
+                    THEN IF "ysReturnAwait" \in Quirks THEN awaiting(H, res.v, "retAwait")
+                         ELSE ending(H, Normal(res.v))             \* Return ReturnCompletion(value)
+                    ELSE /\ \E h2 \in {PrintArg(H, Lab("ys", i, t.pc), res.v)} : SetHeap(h2)
+                         /\ ctl' = ctl /\ Goto(i, t.pc + 1)
+               ELSE \* received = Completion(AsyncGeneratorYield(? IteratorValue(innerResult)))
+                    \E h1 \in {GenCompleteStep(H, i, Normal(res.v), FALSE)} :
+                       IF h1.gn[i].q # <<>>
+                       THEN /\ SetHeap(h1) /\ ctl' = ctl
+                            /\ tasks' = [tasks EXCEPT ![i] = [@ EXCEPT !.wait = "ysYielded",
+                                           !.resume = [k |-> Head(h1.gn[i].q).k, v |-> Head(h1.gn[i].q).v]]]
+                       ELSE /\ \E h2 \in {[h1 EXCEPT !.gn[i].st = "yield"]} : SetHeap(h2)
+                            /\ Suspend(i, "ysYielded") /\ ctl' = Pop
+       [] t.wait = "ysYielded" /\ t.resume.k \in {"normal", "throw"} ->
+            \* AsyncGeneratorUnwrapYieldResumption passes normal and throw completions through
+            /\ UNCHANGED <<promises, caps, queue, out, nextJob, settles, tp, combs, gens>> /\ ctl' = ctl
+            /\ tasks' = [tasks EXCEPT ![i] = [@ EXCEPT !.wait = "ys", !.sub = 0, !.recv = t.resume, !.resume = [k |-> "none"]]]
+       [] t.wait = "ysYielded" /\ t.resume.k = "return" -> awaiting(H, t.resume.v, "ysRetAwait")
+       [] t.wait = "ysRetAwait" ->
+            /\ UNCHANGED <<promises, caps, queue, out, nextJob, settles, tp, combs, gens>> /\ ctl' = ctl
+            /\ tasks' = [tasks EXCEPT ![i] = [@ EXCEPT !.wait = "ys", !.sub = 0, !.resume = [k |-> "none"],
+                           !.recv = IF t.resume.k = "throw" THEN Throw(t.resume.v) ELSE Ret(t.resume.v)]]
+       [] t.wait = "none" /\ t.pc <= Len(body.steps) ->
+            \E step \in {body.steps[t.pc]} :
+              (CASE step.op = "ys" ->
+                      \* yield* G_s: GetIterator(value, async) is the generator object itself;
+                      \* received = NormalCompletion(undefined)
+                      /\ UNCHANGED <<promises, caps, queue, out, nextJob, settles, tp, combs, gens>> /\ ctl' = ctl
+                      /\ tasks' = [tasks EXCEPT ![i] = [@ EXCEPT !.wait = "ys", !.sub = 0, !.recv = Normal(U)]]
+                 [] step.op = "yi" ->
+                      \* Yield in an async generator: AsyncGeneratorYield(? Await(value))
+                      \E e \in {EvalOp(H, step.x, i, t.pc, 0)} : awaiting(e.h, e.v, "yieldAwait")
+                 [] step.op \in {"aw", "awc"} ->
+                      \E e \in {EvalOp(H, step.x, i, t.pc, 0)} : awaiting(e.h, e.v, "await")
+                 [] step.op \in {"res", "rej"} ->
+                      /\ \E h2 \in {SettleStep(H, step, i, t.pc)} : SetHeap(h2)
+                      /\ Goto(i, t.pc + 1) /\ ctl' = ctl)
+       [] t.wait = "none" /\ t.pc > Len(body.steps) ->
+            \* return X in an async generator awaits X; throw ends the body
+            IF body.ret.o = "throw" THEN ending(H, Throw(N(SiteN(i, 9, 0))))
+            ELSE \E e \in {EvalOp(H, body.ret, i, 9, 0)} : awaiting(e.h, e.v, "retAwait")
+
 TaskStep ==
   /\ ctl # <<>> /\ Top.k = "task"
   /\ UNCHANGED <<scn, phase, act, ran>>
   /\ \E i \in {Top.id} : \E t \in {tasks[Top.id]} : \E body \in {scn.tasks[Top.id]} : \E H \in {Heap} :
-     LET finish(h) == /\ SetHeap(h) /\ ctl' = Pop
-                      /\ tasks' = [tasks EXCEPT ![i] = [@ EXCEPT !.st = "done", !.resume = [k |-> "none"]]]
-     IN /\ Assert(t.st = "running", "a suspended or finished task is running")
-        /\ CASE t.resume.k = "throw" ->
-                  \* Await resumed with a throw completion; no try/catch in the body: AsyncBlockStart
-                  \* step 3.g: Call(promiseCapability.[[Reject]], undefined, << result.[[Value]] >>)
-                  \E h2 \in {RejectFn(H, t.rf, t.resume.v)} : finish(h2)
-             [] t.resume.k = "normal" ->
-                  /\ \E h2 \in {PrintArg(H, Lab("aw", i, t.pc), t.resume.v)} : SetHeap(h2)
-                  /\ ctl' = ctl
-                  /\ tasks' = [tasks EXCEPT ![i] = [@ EXCEPT !.pc = @ + 1, !.resume = [k |-> "none"]]]
-             [] t.resume.k = "none" /\ t.pc = 0 ->
-                  /\ \E h2 \in {PrintNoArg(H, Lab("go", i, 0))} : SetHeap(h2)
-                  /\ ctl' = ctl
-                  /\ tasks' = [tasks EXCEPT ![i].pc = 1]
-             [] t.resume.k = "none" /\ t.pc > 0 /\ t.pc <= Len(body.steps) ->
-                  \E step \in {body.steps[t.pc]} :
-                     IF step.op = "aw"
-                     THEN \* Await(v): promise = PromiseResolve(%Promise%, v); PerformPromiseThen(promise,
-                          \* onFulfilled, onRejected); suspend
-                          \E e \in {EvalOp(H, step.x, i, t.pc, 0)} :
-                          \E r \in {PromiseResolveOp(e.h, e.v)} :
-                          \E h2 \in {PerformThen(r.h, r.v.id, FnAwaitF(i), FnAwaitR(i), 0)} :
-                             /\ SetHeap(h2)
-                             /\ tasks' = [tasks EXCEPT ![i].st = "suspended"]
-                             /\ ctl' = Pop
-                     ELSE /\ \E h2 \in {SettleStep(H, step, i, t.pc)} : SetHeap(h2)
-                          /\ tasks' = [tasks EXCEPT ![i].pc = @ + 1] /\ ctl' = ctl
-             [] t.resume.k = "none" /\ t.pc > Len(body.steps) ->
-                  \* AsyncBlockStart 3.e-g: resolve / reject the function's capability
-                  IF body.ret.o = "throw"
-                  THEN \E h2 \in {RejectFn(H, t.rf, N(SiteN(i, 9, 0)))} : finish(h2)
-                  ELSE \E e \in {EvalOp(H, body.ret, i, 9, 0)} :
-                       \E h2 \in {ResolveFn(e.h, t.rf, e.v)} : finish(h2)
+       /\ Assert(t.st = "running", "a suspended or finished task is running")
+       /\ IF body.kind = "G" THEN GTaskStep(i, t, body, H) ELSE ATaskStep(i, t, body, H)
 
 \* the job at the head of the queue runs (only when no synchronous code is running)
 RunJob ==
@@ -457,7 +761,7 @@ Quiesce ==
           /\ out' = Append(out, [e |-> "phase", p |-> "script2"])
      ELSE /\ phase' = "done" /\ act' = act /\ ctl' = ctl
           /\ out' = Append(out, [e |-> "phase", p |-> "done"])
-  /\ UNCHANGED <<scn, promises, caps, queue, tasks, tp, nextJob, ran, settles>>
+  /\ UNCHANGED <<scn, promises, caps, queue, tasks, tp, nextJob, ran, settles, combs, gens>>
 
 Next == ScriptStep \/ TaskStep \/ RunJob \/ Quiesce
 
@@ -493,7 +797,12 @@ EachJobOnce ==
 \* a job runs in a later activity than the synchronous code that enqueued it (and later in the
 \* stream), and only when no other synchronous code is on the control stack (run-to-completion)
 JobAfterSyncCode ==
-  /\ (ctl # <<>> /\ phase \in {"jobs1", "jobs2"}) => Len(ctl) = 1
+  /\ phase \in {"jobs1", "jobs2"} =>
+        \* only the activation resumed by the running job, plus a generator body it resumed, plus
+        \* the generator that one delegates to
+        (Len(ctl) <= 3 /\ \A k \in 1..Len(ctl) : ctl[k].k = "task")
+  /\ phase \in {"script1", "script2"} =>
+        (ctl # <<>> /\ ctl[1].k = "main" /\ Len(ctl) <= 4 /\ \A k \in 2..Len(ctl) : ctl[k].k = "task")
   /\ Done => \A enq \in {Events("enq")} : \A run \in {Events("run")} :
                \A a \in 1..Len(run) :
                   /\ enq[run[a].id].id = run[a].id
@@ -527,7 +836,20 @@ PendingAwaits(i) ==
 
 AwaitResumesOnce ==
   \A i \in 1..Len(tasks) :
-     scn.tasks[i].kind = "A" => (PendingAwaits(i) = IF tasks[i].st = "suspended" THEN 1 ELSE 0)
+     /\ scn.tasks[i].kind = "A" => (PendingAwaits(i) = IF tasks[i].st = "suspended" THEN 1 ELSE 0)
+     /\ scn.tasks[i].kind = "G" =>
+           (PendingAwaits(i) = IF tasks[i].st = "suspended"
+                                  /\ tasks[i].wait \in {"await", "yieldAwait", "retAwait", "resumeRetAwait", "ysAwait", "ysRetAwait"}
+                               THEN 1 ELSE 0)
+
+\* async generator objects: the state says who may touch the request queue
+GeneratorsOK ==
+  \A i \in {k \in 1..Len(gens) : scn.tasks[k].kind = "G"} :
+     /\ gens[i].st = "completed" => gens[i].q = <<>>
+     /\ gens[i].st = "yield" => (gens[i].q = <<>> /\ tasks[i].st = "suspended" /\ tasks[i].wait \in {"yielded", "ysYielded"})
+     /\ gens[i].st = "executing" => (gens[i].q # <<>> /\ tasks[i].st \in {"running", "suspended"})
+     /\ gens[i].st = "draining" => gens[i].q # <<>>
+     /\ gens[i].st = "start" => (gens[i].q = <<>> /\ tasks[i].wait = "start")
 
 StructureOK ==
   /\ Len(settles) = Len(promises)
